@@ -23,8 +23,9 @@ MANIFEST = {
             "(len + 7) div 8. Tie to the source: correspondence of both sides under symbolic crypto (output bytes are derivation terms) on small DH groups with frequent leading zeros and every "
             "key_length padding. The clause 'equals an independent implementation Windows uses' is supported by kek.real, which is a TEST: the implementation with real crypto against an "
             "independent SP800-108/56A/DH/ECDH reference written on hmac/hashlib and calibrated by AES-unwrapping the 16 Windows-produced blobs of tests/data.",
-    "note": "Nonce-mode agreement needs the encrypting side's envelope to carry the L2 key of its position; when L2 = 31 and the L2 key field is absent new_kek uses b'' (candidate defect D13, "
-            "stated as the witness C03_D13_witness, not repaired here). ECDH agreement is conditional on CryptoLaws.ec_commutes.",
+    "note": "Nonce-mode agreement is stated for an encrypting side that holds the L2 seed key of its position or a conforming envelope without L2 key (allowed at L2 = 31; "
+            "new_kek then derives it -- the repair of defect D13, commit 38c07ef in /repo, which the model follows; instance C03_nonce_absent_l2_example). "
+            "ECDH agreement is conditional on CryptoLaws.ec_commutes (shown to hold for the symbolic instance). DH hypotheses ask that KDF/RNG outputs are byte strings (wfb).",
     "technique": "Coq proof (modular exponentiation, fixed-width codecs, composition with the C02 chain theorem) + differential correspondence under symbolic crypto + calibrated reference test",
 }
 ASSUMPTIONS = [
@@ -235,7 +236,7 @@ def agree_cases(ctx: Ctx, n):
         hid = 1 + k % 4
         l0 = [361, 0, 2 ** 31 - 1][k % 3]
         ch = SymChain(hid, rb(ctx, 8), rk, l0)
-        k1, k2 = ch.envelope_keys(l1, l2)
+        k1, k2 = ch.envelope_keys(l1, l2, drop_l2_at_31=(k % 3 == 0))  # L2 key absent at L2 = 31 (D13 shape)
         enc = env_val(hid, [0, 2][k % 2], l0, l1, l2, rk, "DH", b"", 512, 2048, k1, k2)
         shapes = [enc]
         d1, d2 = ctx.rng.randrange(l1, 32), ctx.rng.randrange(32)
